@@ -138,3 +138,29 @@ class Report:
             print("VIOLATION property=%s replay=%s" % (self.pid, vf))
             return 1
         return 0
+
+
+class Retag:
+    """view of a Report that files every obligation under another rule id (used when one
+    property shares a rule of another property)"""
+    def __init__(self, rep, rule):
+        self._r = rep
+        self._rule = rule
+
+    def __getattr__(self, k):
+        return getattr(self._r, k)
+
+    def rule(self, *a, **kw):
+        pass
+
+    def ok(self, rule, *a, **kw):
+        return self._r.ok(self._rule, *a, **kw)
+
+    def fail(self, rule, *a, **kw):
+        return self._r.fail(self._rule, *a, **kw)
+
+    def check(self, cond, rule, *a, **kw):
+        return self._r.check(cond, self._rule, *a, **kw)
+
+    def floor(self, rule, *a, **kw):
+        return self._r.floor(self._rule, *a, **kw)
